@@ -28,7 +28,7 @@ LIST_NP = {"list_i8": "i1", "list_u8": "u1", "list_i16": "<i2", "list_u16": "<u2
 # microsecond values that the pinned float conversion gets wrong (D6) come first
 US = [4146, 493, 999999, 986, 1, 0, 1972, 500000, 123457, 8293, 16585, 999998, 250001, 1985, 3944, 7829]
 STRS = ["a", "bc", "", "x y", "it's", "/p"]
-MSTRS = ["é中", "\U0001F600x", "ß", "", "'é'/"]
+MSTRS = ["é中", "\U0001F600x", "ß", "", "'é'/", "\ufeffbom", "two\nlines"]
 
 
 def _rng(*k):
@@ -143,7 +143,7 @@ def make_value(vc, seed):
     if vc == "str_ascii":
         return "abc", "s:abc", "cooked"
     if vc == "str_multibyte":
-        return "é中\U0001F600", "s:é中\U0001F600", "cooked"
+        return "\ufeffé中\U0001F600\nx", "s:\ufeffé中\U0001F600\nx", "cooked"
     if vc == "str_empty":
         return "", "s:", "cooked"
     us = 1614834367004146 + (seed % 7) * 4146
@@ -182,7 +182,8 @@ def _names(path):
 # The specification's names g1, g2, a, b stand for arbitrary strings: some programs are run with awkward ones (empty,
 # a quote, slashes).  Injective per level, so the observed paths translate back one to one.
 # (group names keep their sorting order: the writer declares missing groups in sorted order, `GroupRank' in the spec)
-NAME_VARIANTS = [{}, {"g1": "", "a": ""}, {"g1": "'g", "g2": "g/2'", "b": "/", "a": "'"}]
+NAME_VARIANTS = [{}, {"g1": "", "a": ""}, {"g1": "'g", "g2": "g/2'", "b": "/", "a": "'"},
+                 {"g1": "G\n1", "g2": "g\ufeff2", "a": "a\nb", "b": "\ufeff"}]
 
 
 def _concrete_path(names):
